@@ -1,5 +1,5 @@
 import glob, os, re, subprocess, sys
-BASES=["f5f6197","6f2d858","b4d5c65","a464373"]; NEW=subprocess.run(["git","-C","/repo","rev-parse","HEAD"],capture_output=True,text=True).stdout.strip()
+BASES=["f5f6197","6f2d858","b4d5c65","a464373","f8d5375","187367f"]; NEW=subprocess.run(["git","-C","/repo","rev-parse","HEAD"],capture_output=True,text=True).stdout.strip()
 WT="/tmp/rebase_wt"
 subprocess.run(["git","-C","/repo","worktree","remove","--force",WT],capture_output=True)
 subprocess.run(["git","-C","/repo","worktree","add","-q","--detach",WT,BASES[0]],check=True)
@@ -54,6 +54,48 @@ for p in pats:
     c=re.sub(r"( +)self\.pre_handle = register_module_forward_pre_hook\(self\.calibrate_input\)\n +self\.post_handle = register_module_forward_hook\(self\.calibrate_output\)\n",
              lambda m: f"{m.group(1)}self.hook_handles.append(\n{m.group(1)}    (\n{m.group(1)}        register_module_forward_pre_hook(self.calibrate_input),\n{m.group(1)}        register_module_forward_hook(self.calibrate_output),\n{m.group(1)}    )\n{m.group(1)})\n", c)
     c=re.sub(r"( +)self\.pre_handle\.remove\(\)\n +self\.post_handle\.remove\(\)\n", lambda m: f"{m.group(1)}for handle in self.hook_handles.pop():\n{m.group(1)}    handle.remove()\n", c)
+    open(fp,"w").write(c)
+    # fix d3663f9 (neg saturates the lowest code) and 187367f (linear dequantizes operands scaled along the contraction)
+    fp=os.path.join(WT,"optimum/quanto/tensor/qbytes_ops.py")
+    c=open(fp).read()
+    i=c.find("def neg(")
+    if i>=0 and "The lowest integer code has no positive counterpart" not in c:
+        j=c.find("    out_data = op(input._data, *args, **kwargs)\n", i)
+        k=c.find("\ndef ", i+5)
+        if j>=0 and (k<0 or j<k):
+            c=c[:j]+"    # The lowest integer code has no positive counterpart: saturate it instead of letting its negation wrap around\n    data = torch.clamp(input._data, min=-torch.iinfo(input._data.dtype).max)\n    out_data = op(data, *args, **kwargs)\n"+c[j+len("    out_data = op(input._data, *args, **kwargs)\n"):]
+            open(fp,"w").write(c)
+    fp=os.path.join(WT,"optimum/quanto/tensor/qtensor_func.py")
+    c=open(fp).read()
+    old_="def linear(func, input, other, bias=None):\n    return QTensorLinear.apply(input, other, bias)"
+    if old_ in c:
+        c=c.replace(old_,"def linear(func, input, other, bias=None):\n    # The scales can only be applied to the output if they are not along the contracted dimension:\n    # the input must be quantized per-tensor and the weights per-tensor or along their first axis\n    if isinstance(input, QBytesTensor) and input.axis is not None:\n        input = input.dequantize()\n    if isinstance(other, QBytesTensor) and other.axis is not None and (other.ndim != 2 or other.axis != 0):\n        other = other.dequantize()\n    return QTensorLinear.apply(input, other, bias)")
+        open(fp,"w").write(c)
+    # fix ebb5816 (dense operands for the torch kernels) and 80052f0 (scale product in float32)
+    fp=os.path.join(WT,"optimum/quanto/library/qbytes_mm.py")
+    c=open(fp).read()
+    if "materialize expanded (stride 0) activations" not in c:
+        i=c.find("def qbytes_int_mm(")
+        j=c.find("    out_features = weights.shape[0]\n", i) if i>=0 else -1
+        if j>=0:
+            j+=len("    out_features = weights.shape[0]\n")
+            c=c[:j]+"    # torch._int_mm reads its first operand as a dense matrix: materialize expanded (stride 0) activations\n    activations = activations.contiguous()\n"+c[j:]
+    if "contiguous on their last dimension" not in c:
+        i=c.find("def qbytes_int8pack_mm(")
+        j=c.find("    output_scales = output_scales.flatten()\n", i) if i>=0 else -1
+        if j>=0:
+            j+=len("    output_scales = output_scales.flatten()\n")
+            c=c[:j]+"    # and activations that are contiguous on their last dimension\n    activations = activations.contiguous()\n"+c[j:]
+    open(fp,"w").write(c)
+    fp=os.path.join(WT,"optimum/quanto/tensor/qbytes_ops.py")
+    c=open(fp).read()
+    c=re.sub(r"( +)out_data = torch\._int_mm\(input\._data, other\._data\)\n", lambda m: f"{m.group(1)}# torch._int_mm reads dense matrices: materialize expanded (stride 0) operands\n{m.group(1)}out_data = torch._int_mm(input._data.contiguous(), other._data.contiguous())\n", c)
+    c=re.sub(r"( +)out_scale = \(input\._scale \* other\._scale\)\.to\(torch\.float32\)\n", lambda m: f"{m.group(1)}# The product of the scales is evaluated in float32: it can underflow in float16\n{m.group(1)}out_scale = input._scale.to(torch.float32) * other._scale.to(torch.float32)\n", c)
+    c=c.replace("fp32_output = (input._scale * other._scale).to(torch.float32) * out_data","fp32_output = input._scale.to(torch.float32) * other._scale.to(torch.float32) * out_data")
+    open(fp,"w").write(c)
+    fp=os.path.join(WT,"optimum/quanto/tensor/qtensor_func.py")
+    c=open(fp).read()
+    c=re.sub(r"( +)output = torch\.ops\.quanto\.qbytes_mm\(input\._data, other\._data, input\._scale \* other\._scale\)\n", lambda m: f"{m.group(1)}# The product of the scales is evaluated in float32: it can underflow in float16\n{m.group(1)}output_scales = input._scale.to(torch.float32) * other._scale.to(torch.float32)\n{m.group(1)}output = torch.ops.quanto.qbytes_mm(input._data, other._data, output_scales).to(input._scale.dtype)\n", c)
     open(fp,"w").write(c)
     subprocess.run(["git","-C",WT,"add","-A","-N"],check=True)
     d=subprocess.run(["git","-C",WT,"diff",NEW,"--","."],capture_output=True,text=True).stdout
